@@ -437,6 +437,8 @@ pub fn run(ctx: &Ctx) -> Report {
     let stmts = ["print(1)", "stel x = 2", "x", "f(1, 2)", "als ja { 1 }"];
     let mut bad: Vec<String> = ILLEGAL.iter().map(|s| s.to_string()).collect();
     bad.extend(["\"abc", "\"a\\\"", "\"", "& &", "| |"].iter().map(|s| s.to_string()));
+    // a token that cannot stand there must be reported as well, not taken for the end of the program
+    bad.extend(["}", ")", "]", ",", "} }", "= ="].iter().map(|s| s.to_string()));
     for a in stmts {
         for b in stmts {
             for x in &bad {
